@@ -284,7 +284,8 @@ struct WorldH : World {
       }
       if (!want.found) { if (got) { violate("C11.identity", ctx + ": delivered although neither table nor passwd rules assign it"); return; } if (rep.empty() || rep[0] != 'Z') { violate("C11.no-user-not-deferred", ctx + ": report \"" + printable(rep, 60) + "\""); return; } continue; }
       unsigned long wuid = strtoul(want.uid.c_str(), 0, 10), wgid = strtoul(want.gid.c_str(), 0, 10);
-      if (wuid == 0) { if (got) { violate("C11.delivery-as-root", ctx + ": qmail-local started for a uid-0 assignment"); return; } if (rep.empty() || rep[0] != 'Z') { violate("C11.root-not-deferred", ctx + ": report \"" + printable(rep, 60) + "\""); return; } continue; }
+      if (got && (got->uid == 0 || got->euid == 0)) { violate("C11.delivery-as-root", ctx + ": qmail-local runs with uid " + std::to_string(got->uid) + "/" + std::to_string(got->euid) + " for the assignment uid " + want.uid); return; }
+      if ((uint32_t)wuid == 0) { k->probe("c11_zero_uid_assignment"); if (got) { violate("C11.delivery-as-root", ctx + ": qmail-local started for a uid-0 assignment"); return; } if (rep.empty() || rep[0] != 'Z') { violate("C11.root-not-deferred", ctx + ": report \"" + printable(rep, 60) + "\""); return; } continue; }
       if (!got) { violate("C11.not-delivered", ctx + ": no qmail-local was started (report \"" + printable(rep, 80) + "\"), expected user " + want.user + (from_table ? " from users/assign" : " from the passwd rules")); return; }
       std::vector<std::string> wargv = {"bin/qmail-local", "--", want.user, want.home, local, want.dash, want.ext, domain, c.sender, "./Mailbox"};
       if (got->argv != wargv) { std::string a, b; for (auto &x : got->argv) a += "[" + printable(x, 30) + "]"; for (auto &x : wargv) b += "[" + printable(x, 30) + "]"; violate("C11.identity", ctx + ": qmail-local started with " + a + ", expected " + b); return; }
